@@ -158,6 +158,7 @@ class SimAllocator final : public ArduinoJson::Allocator {
     memset(p, 0xDD, b.size);
     free(p);
     nMoves++;
+    count("fault.realloc_moved");
     log('R', n, g_ledger.live[q].id);
     return q;
   }
